@@ -791,12 +791,6 @@ def write_pam(matrix, matrix_size, out, scale=1, border=None, dark='#000', light
             See `color` for valid values. In addition, ``None`` is
             accepted which indicates a transparent background.
     """
-    def invert_row_bits(row):
-        """\
-        Inverts the row bits 0 -> 1, 1 -> 0
-        """
-        return bytearray([b ^ 0x1 for b in row])
-
     def row_to_color_values(row, colours):
         return b''.join(colours[b] for b in row)
 
@@ -820,16 +814,20 @@ def write_pam(matrix, matrix_size, out, scale=1, border=None, dark='#000', light
     elif colored_stroke or not (_color_is_black(bg_color) or _color_is_white(bg_color)):
         tuple_type = 'RGB'
     is_rgb = tuple_type.startswith('RGB')
-    colours = None
-    if not is_rgb and transparency:
-        depth = 2
-        colours = (b'\x01\x00', b'\x00\x01')
-    elif is_rgb:
+    if not is_rgb:
+        # Sample values: 0 = black, 1 = white
+        dark_value = int(_color_is_white(stroke_color[:3]))
+        if transparency:
+            depth = 2
+            colours = (bytes((1 - dark_value, 0)), bytes((dark_value, 1)))
+        else:
+            colours = (bytes((int(_color_is_white(bg_color[:3])),)), bytes((dark_value,)))
+    else:
         maxval = 255
         depth = 3 if not transparency else 4
         fmt = f'>{depth}B'.encode('ascii')
         colours = (pack(fmt, *bg_color), pack(fmt, *stroke_color))
-    row_filter = invert_row_bits if colours is None else partial(row_to_color_values, colours=colours)
+    row_filter = partial(row_to_color_values, colours=colours)
     with writable(out, 'wb') as f:
         write = f.write
         write('P7\n'
